@@ -65,7 +65,7 @@ HOSTILE_VALUES = [
 def gen_line(ch, cfg, v1):
     """-> (bytes, kind)"""
     k = ch.weighted([(6, "mutated-request"), (2, "hostile-field"), (1, "bytes"), (1, "bad-utf8"),
-                     (1, "deep-nesting"), (1, "huge-int"), (1, "json-shape"), (2, "oversized"),
+                     (2, "deep-nesting"), (1, "huge-int"), (1, "json-shape"), (2, "oversized"),
                      (1, "bad-blocks")], "line.kind")
     cmds = ["version", "sign", "getPubKey"] if v1 else \
         ["version", "sign", "getPubKey", "advanceBlockchain", "resetAdvanceBlockchain",
@@ -83,7 +83,7 @@ def gen_line(ch, cfg, v1):
         # (far beyond what the parser takes, around the interpreter's limits, and in the narrow band
         # where the parser still accepts what can no longer be rendered)
         n = ch.pick([cfg["deep"], 2000, 1000, 990, 1400 + ch.draw(130, "deep.near-limit"),
-                     1480 + ch.draw(30, "deep.nearer")], "deep.n")
+                     1484 + ch.draw(16, "deep.nearer"), 1484 + ch.draw(16, "deep.nearer2")], "deep.n")
         shape = ch.draw(3, "deep.shape")
         if shape == 0:
             return b"[" * n, k
@@ -262,6 +262,11 @@ def _run_one(ch, cfg):
         w.start_manager()
     k = w.kernel
     nlines = 1 + ch.draw(cfg["max_lines"], "history.len")
+    scan = []
+    if ch.draw(40, "nesting-scan") == 1:
+        shp = ch.draw(3, "nesting-scan.shape")
+        scan = [(d, shp) for d in range(1484, 1501)]
+        nlines = len(scan)
     history = []
     viol = []
     kinds = []
@@ -313,6 +318,13 @@ def _run_one(ch, cfg):
         prev = None
         for i in range(nlines):
             line, kind = gen_line(ch, cfg, v1)
+            if scan:
+                # one depth after the other through the band where the parser's limit and the limits
+                # of whatever handles the parsed value lie a few levels apart
+                d, shp = scan.pop(0)
+                line = [b"[" * d + b"]" * d, b'{"command":' + b'{"a":' * d + b"1" + b"}" * d + b"}",
+                        b'{"command":"version","version":5,"x":' + b"[" * d + b"]" * d + b"}"][shp]
+                kind = "deep-nesting"
             if prev is not None and ch.draw(4, "history.retry") == 1:
                 line, kind = prev          # a client that sends the very same line again
             prev = (line, kind)
